@@ -22,6 +22,39 @@ def placeholders(path):
     return [seg for seg in path.split("/") if seg.startswith(":")]
 
 
+def header_write_rule(ctx, w):
+    """(thorough tier: the generated conversions exist with the client/server features only.) A header field of a request / response type is written
+    with HeaderMap::insert, which REPLACES what the builder put there before (`Content-Type: application/json` is pre-set on every response): with
+    `append` the message carries two values and the receiving side, which takes the first one, reads the default instead of the field."""
+    rule = "C16.header-writes"
+    ctx.rule(rule, "generated try_into_http_request / try_into_http_response: header fields are written with HeaderMap::insert (replace), never append")
+    n_ins, bad = 0, []
+    for g in w.all_fns():
+        if "body" not in g or not re.search(r"::(try_into_http_response|try_into_http_request)$", re.sub(r"(::\{closure#\d+\})+$", "", g["path"])):
+            continue
+        for body in M.all_bodies(g):
+            for _, c in M.calls(body):
+                cn = M.callee_name(c)
+                if "header::map::HeaderMap" in cn:
+                    last = cn.rsplit("::", 1)[-1]
+                    if last in ("insert", "try_insert"):
+                        n_ins += 1
+                    elif last in ("append", "try_append"):
+                        bad.append((g, last, c["line"]))
+    ctx.floor("header fields written by generated conversions", n_ins, 20)
+    seen = set()
+    for g, op, line in bad:
+        k = PCkey(g["path"])[-160:]
+        if (k, op) in seen:
+            continue
+        seen.add((k, op))
+        ctx.violation(rule, f"{rule}:{k}:{op}", w.where(g, line),
+                      f"{g['path']} writes a header field with HeaderMap::{op}: a value the builder already set for that header (Content-Type) is kept next to it, the "
+                      f"receiving side reads the first one, and the field does not survive the round trip")
+    if not bad:
+        ctx.ok(rule, f"{rule}:scan", "", f"{n_ins} header fields inserted, none appended")
+
+
 def version_literal_rule(ctx, w):
     """The `metadata!` macro turns the version literals of an endpoint's history (`1.14 => "/path"`) into MatrixVersion values through
     MatrixVersion::from_parts; into_parts is its inverse. A wrong table entry records a path under another version, so select_path offers it to
@@ -464,6 +497,8 @@ def run(ctx):
         witness.check(ctx, "C16.witness", {"C16VersionHistoryFields": "VersionHistory can be built field by field from another crate, bypassing the path/version checks of VersionHistory::new"})
     escape_parity_rule(ctx, w)
     version_literal_rule(ctx, w)
+    if ctx.tier == "thorough":
+        header_write_rule(ctx, w)
     ctx.assumptions += ["serde_html_form / serde_json round-trip values of the carrier types; field-level serde symmetry is checked in C18.symmetry",
                         "select_path over arbitrary subsets of versions is not decided (only that it is the function used)"]
     ctx.samples += [{"endpoint": "federation membership::create_join_event::v2", "path_args": 2, "query": "RequestQuery", "body": "RequestBody"}]
